@@ -13,7 +13,7 @@ tier="$1"; patch="$2"; shift 2
 mkdir -p "$W"
 if [ ! -d "$W/repo" ]; then git -C /repo worktree add --detach "$W/repo" HEAD -q || exit 2; fi
 mkdir -p "$W/verif"
-rsync -a --delete --exclude target --exclude .git --exclude replays --exclude evidence /verif/ "$W/verif/" || exit 2
+rsync -a --delete --exclude target --exclude .git --exclude replays --exclude evidence "${MUTATE_SRC:-/verif}/" "$W/verif/" || exit 2
 sed -i "s#\"/repo/#\"$W/repo/#g" "$W/verif/harness/Cargo.toml"
 sed -i "s#/verif/target#$W/verif/target#" "$W/verif/harness/.cargo/config.toml"
 git -C "$W/repo" checkout -q -- . ; git -C "$W/repo" clean -fdq -e target
